@@ -47,6 +47,12 @@ def build(prop, models=None):
         refused = [f for f in translate.FAILED if prop in f[1]]
         if refused:
             return False, "translator refused: " + "; ".join("%s: %s" % (f[0], f[2]) for f in refused), "harness/translate.py"
+        if prop == "C03":
+            # the storage-discipline programs of every component class, regenerated from the source
+            from . import translate_writes, writes_diag
+            names, failed = translate_writes.main()
+            if failed:
+                return False, "write-program translator refused: " + "; ".join("%s::%s: %s" % f for f in failed), "harness/translate_writes.py"
         if not os.path.exists(os.path.join(COQ, "Makefile")):
             rc, out = sh(["coq_makefile", "-f", "_CoqProject", "-o", "Makefile"], 120, cwd=COQ)
             if rc != 0:
@@ -66,7 +72,16 @@ def build(prop, models=None):
         rc, out = sh(["make", "-j16"] + targets, 3000, cwd=COQ)
         if rc != 0:
             m = re.findall(r'File "\./([^"]+)", line (\d+)', out)
-            return False, out[-3000:], (m[-1][0] if m else "?")
+            extra = ""
+            if prop == "C03":
+                try:
+                    from . import writes_diag, translate_writes
+                    exp = translate_writes.FACTS.get("_expected_undisciplined", {})
+                    d = {k: v for k, v in writes_diag.diagnose().items() if k not in exp}
+                    extra = "\nundisciplined components (first offending statement): " + json.dumps(d, default=str)
+                except Exception as e:
+                    extra = "\n(diagnosis failed: %s)" % e
+            return False, out[-3000:] + extra, (m[-1][0] if m else "?")
         return True, out[-500:], None
     finally:
         fcntl.flock(lock, fcntl.LOCK_UN)
